@@ -102,6 +102,18 @@ class Verdict:
         coverage.setdefault("distinct_nontrivial", 0)
         coverage.setdefault("rule", "")
         coverage.setdefault("samples", [])
+        # keys that the evidence schema reserves for integers: a breakdown goes under <key>_breakdown, the count stays under the key
+        for reserved in ("programs", "states", "transitions", "obligations", "discharged", "disagreements_checked", "traces_validated_against_impl"):
+            val = coverage.get(reserved)
+            if isinstance(val, dict):
+                coverage[reserved + "_breakdown"] = val
+                n = val.get(reserved)
+                if isinstance(n, int) and not isinstance(n, bool) and n >= 0:
+                    coverage[reserved] = n
+                else:
+                    del coverage[reserved]
+            elif val is not None and (not isinstance(val, int) or isinstance(val, bool) or val < 0):
+                coverage[reserved + "_detail"] = coverage.pop(reserved)
         coverage["counters"] = dict(sorted(self.counters.items()))
         coverage["known_findings_hit"] = {k: v for k, v in self.hits.items()}
         coverage["known_finding_examples"] = self.hit_examples
